@@ -5,18 +5,21 @@
   every large enough fuel.
 
   (a) `gen_since_timed`, `gen_until_timed`: the two module-level functions that call the others;
-  (b) `genD_eval`: the whole visitor, by induction on the formula (`F.denseSupported` excludes `.bin (.predSat _)` only);
+  (b) `genD_eval`: the whole visitor, by induction on the formula - every formula, including the predicate node as the
+      interface-aware robustness visitors evaluate it (`.bin (.predSat _)`: `visitPredicate_outRob`, `GenDenseIA`);
   (c) `genD_supported`: no `unsupported` construct occurs in the code `genD_eval` runs.
 
   The parts are proved in `GenDenseInter` (`intersection`, the methods, `and_operation`, `subtraction_operation`),
   `GenDenseFwd` (`once_timed_operation`, `historically_timed_operation`), `GenDenseBack` (`always_timed_operation`,
-  `eventually_timed_operation`), `GenDenseScan` (the unbounded temporal operators) and `GenDenseUn` (the visit methods).
+  `eventually_timed_operation`), `GenDenseScan` (the unbounded temporal operators), `GenDenseUn` (the visit methods) and `GenDenseIA` (the interface-aware
+  `visitPredicate`).
 -/
 import RtamtProofs.GenDenseInter
 import RtamtProofs.GenDenseFwd
 import RtamtProofs.GenDenseBack
 import RtamtProofs.GenDenseScan
 import RtamtProofs.GenDenseUn
+import RtamtProofs.GenDenseIA
 
 set_option linter.unusedSectionVars false
 set_option linter.unusedVariables false
@@ -420,20 +423,24 @@ end Rtamt.Py.Dn
 
 namespace Rtamt
 
-/-- The formulas of the dense-time offline visitor `StlDenseTimeOfflineAstVisitor`: everything except the predicate node as
-    the interface-aware visitor evaluates it (`.bin (.predSat c)`: `evalAlg` computes `predicateIA`, which is not part of
-    this visitor - `evalAlgG` returns `.error .other`).  On `.bin .predZero` both sides return `.error .other` once the
-    children are evaluated, on the kinds whose `visitX` raises (`rise`, `fall`, `previous`, `next`, …, `precedes`) both
-    return `.error .rtamt`: they are not excluded. -/
+/-- The formulas on which the translated dense-time offline visitor is related to the mirror: nothing is excluded any more
+    (the predicate holds of every formula, `F.denseSupported_all`; it is kept because `genD_eval` is stated with it).
+    The predicate node as the interface-aware robustness visitors evaluate it (`.bin (.predSat c)`) is run through the
+    translated `visitPredicate_outRob` (`gen_visitPredicate_outRob_insensitive`).  On `.bin .predZero` both sides return
+    `.error .other` once the children are evaluated, on the kinds whose `visitX` raises (`rise`, `fall`, `previous`, `next`,
+    …, `precedes`) both return `.error .rtamt`. -/
 def F.denseSupported {α : Type} : F α → Bool
   | .var _ => true
   | .const _ => true
   | .un _ φ => φ.denseSupported
-  | .bin op φ ψ => (match op with | .predSat _ => false | _ => true) && φ.denseSupported && ψ.denseSupported
+  | .bin _ φ ψ => φ.denseSupported && ψ.denseSupported
   | .tmp1 _ φ => φ.denseSupported
   | .tmp2 _ φ ψ => φ.denseSupported && ψ.denseSupported
   | .tb1 _ _ _ φ => φ.denseSupported
   | .tb2 _ _ _ φ ψ => φ.denseSupported && ψ.denseSupported
+
+theorem F.denseSupported_all {α : Type} (φ : F α) : φ.denseSupported = true := by
+  induction φ <;> simp_all [F.denseSupported]
 
 end Rtamt
 
@@ -490,7 +497,6 @@ theorem node_un (fuel : Nat) (op : Un) (s : ASig α) :
   · exact gen_visitNot fuel s
 
 theorem node_bin (fuel : Nat) (op : Bin) (l r : ASig α) (h : l.length + r.length + 4 ≤ fuel) :
-    (∀ c, op ≠ .predSat c) →
     (match op with
      | .predSat c =>
          match Gen.Dense.iaMethods.lookup "visitPredicate_outRob" with
@@ -506,11 +512,12 @@ theorem node_bin (fuel : Nat) (op : Bin) (l r : ASig α) (h : l.length + r.lengt
      | .predSat c => predicateIA c (fun b => if b then Val.pinf else Val.ninf) l r
      | .predZero => .error .other
      | _ => inter (binMethod op) vne l r) := by
-  intro hop
   have hI4 : InterSpec α fuel (depth - 2) := gen_intersection fuel 4
   have hI3 : InterSpec α fuel (depth - 3) := gen_intersection fuel 3
   cases op with
-  | predSat c => exact absurd rfl (hop c)
+  | predSat c =>
+      simp only [show Gen.Dense.iaMethods.lookup "visitPredicate_outRob" = some Gen.Dense.visitPredicate_outRob from rfl]
+      exact gen_visitPredicate_outRob_insensitive fuel c l r h
   | predZero => rfl
   | pred c => simp only [Bin.kind, lookupD_Predicate]; exact gen_visitPredicate_inter fuel hI3 c l r h
   | add => simp only [Bin.kind, lookupD_Addition]; exact gen_visitAddition fuel hI4 l r h
@@ -612,12 +619,10 @@ theorem genD_eval (cfg : DCfg) (w : DEnv α) (φ : F α) (hφ : φ.denseSupporte
       exact lift1 _ _ _ _ (ih hφ) (fun s _ => ⟨0, fun fuel _ => node_un fuel op s⟩)
   | bin op φ ψ ih1 ih2 =>
       simp only [F.denseSupported, Bool.and_eq_true] at hφ
-      obtain ⟨⟨hop, h1⟩, h2⟩ := hφ
-      have hop' : ∀ c, op ≠ .predSat c := by
-        intro c hc; subst hc; simp at hop
+      obtain ⟨h1, h2⟩ := hφ
       simp only [evalAlgG, evalAlg]
       exact lift2 _ _ _ _ _ _ (ih1 h1) (ih2 h2)
-        (fun l r _ _ => ⟨l.length + r.length + 4, fun fuel hf => node_bin fuel op l r hf hop'⟩)
+        (fun l r _ _ => ⟨l.length + r.length + 4, fun fuel hf => node_bin fuel op l r hf⟩)
   | tmp1 op φ ih =>
       simp only [F.denseSupported] at hφ
       simp only [evalAlgG, evalAlg]
@@ -636,6 +641,11 @@ theorem genD_eval (cfg : DCfg) (w : DEnv α) (φ : F α) (hφ : φ.denseSupporte
       simp only [evalAlgG, evalAlg]
       exact lift2 _ _ _ _ _ _ (ih1 hφ.1) (ih2 hφ.2)
         (fun l r _ _ => ⟨_, fun fuel hf => node_tb2 fuel op _ _ l r hf⟩)
+
+/-- the same without the (now trivial) hypothesis -/
+theorem genD_eval_all (cfg : DCfg) (w : DEnv α) (φ : F α) :
+    ∃ N, ∀ fuel, N ≤ fuel → evalAlgG fuel cfg w φ = evalAlg cfg w φ :=
+  genD_eval cfg w φ φ.denseSupported_all
 
 /-- non-vacuity: a bounded `until` over a variable and a predicate is supported -/
 example (c : α) : (F.tb2 .until 1 2 (.var "x") (.bin (.pred .le) (.var "y") (.const c))).denseSupported = true := rfl
@@ -707,12 +717,15 @@ def deadFns : List String := ["interval_union", "union"]
       (nor any visit method) calls or references one of those two;
     * every visit method is free of `unsupported`, except `visitVariable`, whose `if node.field:` branch
       (`operator.attrgetter`) is the only unsupported part: the condition, the `else` branch and the rest are supported
-      (`evalAlgG` passes `$field = None`, so the branch is never taken). -/
+      (`evalAlgG` passes `$field = None`, so the branch is never taken);
+    * the interface-aware `visitPredicate`s (`Gen.Dense.iaMethods`; `evalAlgG` runs `visitPredicate_outRob` on
+      `.bin (.predSat _)`) are free of `unsupported` and call none of the dead functions. -/
 def genDSupportedCheck : Bool :=
   (Gen.Dense.fns.all fun p =>
     deadFns.contains p.1 || (p.2.body.supported && p.2.body.names.all fun n => !deadFns.contains n)) &&
   (Gen.Dense.methods.all fun p =>
     (p.1 == "visitVariable" || p.2.body.supported) && p.2.body.names.all fun n => !deadFns.contains n) &&
+  (Gen.Dense.iaMethods.all fun p => p.2.body.supported && p.2.body.names.all fun n => !deadFns.contains n) &&
   (match Gen.Dense.visitVariable.body with
    | .seq a (.seq (.ite c _ e) r) => a.supported && c.supported && e.supported && r.supported
    | _ => false)
